@@ -310,13 +310,13 @@ def parse_items(src, lo, hi):
     return items
 
 
-def find_item(src, path_parts):
+def find_item(src, path_parts, first_ok=False):
     """path_parts like ['impl LogWriter', 'fn append'] or ['fn foo'] or ['struct X'].
-    Returns (Item, [enclosing Items])."""
-    lo, hi = 0, len(src.sig)
-    chain = []
-    for depth, part in enumerate(path_parts):
+    Returns (Item, [enclosing Items]).  Several `impl X` blocks with the same header are all
+    searched; an ambiguous final match is an error unless first_ok."""
+    def rec(lo, hi, parts, chain):
         items = parse_items(src, lo, hi)
+        part = parts[0]
         want_kind, _, rest = part.partition(" ")
         found = []
         for it in items:
@@ -327,19 +327,20 @@ def find_item(src, path_parts):
                     found.append(it)
             elif it.name == rest.strip():
                 found.append(it)
-        if not found:
-            return None, chain
-        if len(found) > 1:
-            raise LexError("%s: ambiguous item %r (%d matches)" % (src.path, part, len(found)))
-        it = found[0]
-        if depth + 1 < len(path_parts):
+        if len(parts) == 1:
+            return [(it, chain) for it in found]
+        res = []
+        for it in found:
             if it.body_open is None:
-                return None, chain
-            chain.append(it)
-            lo, hi = it.body_open + 1, src.match[it.body_open]
-        else:
-            return it, chain
-    return None, chain
+                continue
+            res += rec(it.body_open + 1, src.match[it.body_open], parts[1:], chain + [it])
+        return res
+    res = rec(0, len(src.sig), list(path_parts), [])
+    if not res:
+        return None, []
+    if len(res) > 1 and not first_ok:
+        raise LexError("%s: ambiguous item %r (%d matches)" % (src.path, " :: ".join(path_parts), len(res)))
+    return res[0]
 
 
 def _norm_hdr(h):
